@@ -1127,33 +1127,68 @@ func resultAccessors(w *World, r *Report, rule string) {
 	value := w.Field("xpath", "Result", "value")
 	for _, c := range []struct{ meth, conv string }{{"GetBoolResult", "Boolean"}, {"GetNumResult", "Number"}, {"GetLiteralResult", "Literal"}} {
 		m := w.Method("xpath", "Result", c.meth)
-		fd, p := w.FuncDecl(m)
-		ok := len(fd.Body.List) == 3
-		if ok {
-			// 1: if res.runErr != nil { return _, res.runErr }
-			is1, a := fd.Body.List[0].(*ast.IfStmt)
-			is2, b := fd.Body.List[1].(*ast.IfStmt)
-			ret, c3 := fd.Body.List[2].(*ast.ReturnStmt)
-			ok = a && b && c3
-			if ok {
-				be1, _ := ast.Unparen(is1.Cond).(*ast.BinaryExpr)
-				ok = be1 != nil && be1.Op == token.NEQ && fieldOfSel(p, be1.X) == runErr && isNilIdent(p, be1.Y)
-				r1 := returnsIn(is1.Body)
-				ok = ok && len(r1) == 1 && fieldOfSel(p, r1[0].Results[1]) == runErr
-				be2, _ := ast.Unparen(is2.Cond).(*ast.BinaryExpr)
-				ok = ok && be2 != nil && be2.Op == token.EQL && fieldOfSel(p, be2.X) == value && isNilIdent(p, be2.Y)
-				r2 := returnsIn(is2.Body)
-				ok = ok && len(r2) == 1 && !isNilIdent(p, r2[0].Results[1])
-				if ok {
-					ce, isC := ret.Results[0].(*ast.CallExpr)
-					ok = isC && isNilIdent(p, ret.Results[1])
-					if ok {
-						se, isS := ce.Fun.(*ast.SelectorExpr)
-						ok = isS && se.Sel.Name == c.conv && fieldOfSel(p, se.X) == value
+		f := w.SSAFunc(m)
+		if f == nil || len(ssaLoops(f)) > 0 {
+			panic(undecided{"xpath.Result." + c.meth})
+		}
+		sym := NewSym(w)
+		loadOf := func(v ssa.Value, fld *types.Var) bool {
+			ld, ok := v.(*ssa.UnOp)
+			if !ok || ld.Op != token.MUL {
+				return false
+			}
+			fa, ok := ld.X.(*ssa.FieldAddr)
+			return ok && isFieldAddrOf(fa, fld)
+		}
+		classify := func(a *pcAtom) string {
+			if a.op != token.EQL || a.x == nil {
+				return ""
+			}
+			for _, pair := range [][2]ssa.Value{{a.x, a.y}, {a.y, a.x}} {
+				if isNilConst(pair[1]) {
+					if loadOf(pair[0], runErr) {
+						return "errnil"
+					}
+					if loadOf(pair[0], value) {
+						return "valnil"
 					}
 				}
 			}
+			return ""
 		}
-		r.Check(ok, rule, "Result."+c.meth, fd.Pos(), "runErr first, then nil value, then value."+c.conv+"()", "accessor does not return the run error first / the missing-value error second / the "+c.conv+" conversion last")
+		// the decision table: (value result, error result) per exit
+		r0, r1 := sym.retTable(f, 0), sym.retTable(f, 1)
+		why := ""
+		seen := map[string]bool{}
+		if len(r0) != len(r1) {
+			why = "results not decided"
+		}
+		for i := range r1 {
+			if why != "" {
+				break
+			}
+			var want func(env map[string]bool) bool
+			kind := ""
+			switch {
+			case loadOf(r1[i].val, runErr):
+				kind, want = "run error", func(env map[string]bool) bool { return !env["errnil"] }
+			case isNilConst(r1[i].val):
+				kind, want = "conversion", func(env map[string]bool) bool { return env["errnil"] && !env["valnil"] }
+				call, ok := r0[i].val.(*ssa.Call)
+				if !ok || !call.Call.IsInvoke() || call.Call.Method.Name() != c.conv || !loadOf(call.Call.Value, value) {
+					why = "the successful exit does not return value." + c.conv + "()"
+				}
+			default:
+				kind, want = "missing value", func(env map[string]bool) bool { return env["errnil"] && env["valnil"] }
+			}
+			seen[kind] = true
+			if msg := pcCompare(r1[i].cond, classify, want); msg != "" && why == "" {
+				why = "the " + kind + " exit is taken under the wrong condition: " + msg
+			}
+		}
+		if why == "" && !(seen["run error"] && seen["conversion"] && seen["missing value"]) {
+			why = "one of the three exits is missing"
+		}
+		r.Check(why == "", rule, "Result."+c.meth, f.Pos(), "runErr first, then nil value, then value."+c.conv+"()", "accessor does not return the run error first / the missing-value error second / the "+c.conv+" conversion last: "+why)
 	}
 }
